@@ -147,6 +147,10 @@ where
             self.clear();
         }
 
+        // The container just shrank: the consumed prefix may now take
+        // more than half of it.
+        self.maybe_slide();
+
         self.check_rep();
         Some(ret)
     }
